@@ -29,7 +29,7 @@ def obligations(tier):
 
 ASSUME = [
     "every input is a finite structure choice; CrossHair's path search walks all of them and the solver certifies completeness",
-    "DFXP writers assemble their document on the contract stub of bs4 (harness/fakesoup.py); lxml tree building does not terminate under CrossHair tracing; the SAMI writer runs on the real bs4. Counterexamples of the determinism obligations are replayed on the real bs4 through the public API",
+    "DFXP writers assemble their document on the contract stub of bs4 (harness/fakesoup.py); bs4 and lxml do not run under CrossHair tracing (non-termination, TypeError in typing protocols), the SAMI writer uses the same stub. Counterexamples of the determinism obligations are replayed on the real bs4 through the public API",
     "the name hash inside pycaption.geometry is bound to a deterministic function of the value (CrossHair models hash() as arbitrary); hash consistency itself is C18",
     "another process / hash seed = another iteration order of sets: the DFXP module (the only writer module that creates sets; counted on every run) is re-executed with every set replaced by NondetSet and written twice under two solver-chosen orders (self-composition); modules without any set site cannot depend on set order",
 ]
